@@ -12,6 +12,13 @@ and passed to every public operation without an undocumented error; (4) every au
 returned by an operation — with automatic validation switched off during the call — passes
 validate(); (5) the four combinations of should_validate_automata / allow_mutable_automata
 give the same results on valid inputs; (6) rows keyed by non-states never change a result.
+
+"Undocumented error" is judged per operation: harness/misc_common.documented_reason looks the
+operation up in a table generated from the docstring "Raises" sections of the code under test
+(harness/extract_misc.documented_raises / doc_closure); e.g. DFA.union documents nothing, so any
+exception it raises on valid operands over one alphabet is a violation.  Results that differ
+only in generated state names are compared by an EXACT language comparison (product BFS,
+harness/langoracle.py) plus equal state counts.
 """
 from __future__ import annotations
 
@@ -33,11 +40,22 @@ RULE = ("cases = (class, definition, expectation): valid-by-documentation defini
         "under the four option combinations. Non-trivial: the definition has ≥2 states and ≥1 transition; distinct "
         "= distinct (class, encoded definition, expectation/op) tuples")
 ASSUMPTIONS = [
-    "definitions are type-correct (the container shapes of the class docstrings); names hashable, symbols single characters",
+    "definitions are type-correct (the container shapes of the class docstrings); names hashable",
+    "input / stack / tape symbols are single characters (review finding X3, a documented domain restriction: the library reads "
+    "an input *str* character by character, so a multi-character symbol such as 'ab' — which validate() accepts — is only "
+    "usable with list inputs, d.accepts_input(['ab']); words_of_length joins symbols into a str that `in` then reads per "
+    "character). Generators draw single-character alphabets only",
+    "'documented exception' = named in the Raises section of the method docstring (AST walk over the code under test; wrappers "
+    "inherit from the methods they call, minus what they catch) or, for RejectionException on the read_input family and "
+    "SymbolMismatchError on binary operations over different alphabets, in the exception class docstring; a docstring "
+    "without a Raises section means 'raises nothing'",
+    "calls are made on objects the harness keeps a reference to, except in the `temporary` family (open finding "
+    "C06:cached-query-on-temporary); MNTM.read_input_as_ntm with '^' / '_' among the tape symbols is the open finding "
+    "C17:mark-symbol-in-alphabet-or-input",
     "GNFA labels: re._validate is an oracle bit supplied by the real code (the regex validator is the subject of C11)",
     "list-as-set model: the states container has no duplicates (it is a Python set)",
     "non-terminating PDA/TM runs are cut after 40 steps (or 150 simultaneous configurations); read_input/accepts_input are only called when the bounded stepwise run ended",
-    "results of the four option combinations are compared literally, and up to renaming of library-generated state names when set iteration order differs between set and frozenset",
+    "results of the four option combinations are compared literally; when set iteration order makes library-generated state names differ: same class, alphabet, number of states and EXACTLY the same language (product BFS over the two definitions, harness/langoracle.py)",
 ]
 EXPLANATION = ("Theorems C19_* state validate = ok ↔ well-formed (declarative), that every raised error is the documented "
                "class of a violated rule (so a single-rule corruption raises exactly that class), and that the constructor "
@@ -144,6 +162,21 @@ def outcome_key(r):
     return ("ok", M.result_summary(r[1]))
 
 
+KEY_AS_NTM_MARKS = "C17:mark-symbol-in-alphabet-or-input"
+KEY_TEMPORARY = "C06:cached-query-on-temporary"
+
+
+def finding_for(cls: str, kw, opname: str, exc: BaseException, default: Optional[str],
+                word: Optional[str] = None) -> Optional[str]:
+    """Finding key of an undocumented exception: the two classes that are known (open findings
+    owned by C17 resp. C06/C13, see notes/C19.md) are recognised by their exact shape; anything
+    else is reported under the caller's key (None = a new violation)."""
+    if (opname == "MNTM.read_input_as_ntm" and type(exc).__name__ == "MalformedExtendedTapeError"
+            and ({"^", "_"} & set(kw.get("tape_symbols", ())) or {"^", "_"} & set(word or ""))):
+        return KEY_AS_NTM_MARKS
+    return default
+
+
 def validate_result(ctx, opname, res, replay):
     """(4): an automaton returned by an operation passes validate()."""
     if res[0] == "ok" and M.is_automaton(res[1]):
@@ -178,10 +211,15 @@ def use_definition(ctx: Ctx, cls: str, kw, rng, origin: str, twin=None, finding:
             res = run_op(fn, obj, a)
         ctx.case((cls, name, E.enc_def(cls, kw), repr(sorted(a.items()))) if nontrivial(kw) else None)
         ctx.stat(f"op:{name}:{'ok' if res[0] == 'ok' else type(res[1]).__name__}")
-        if res[0] == "err" and not M.is_documented(name, res[1]):
-            ctx.prop_fail(f"{name} on an accepted {cls} definition ({origin}) raises "
-                          f"{type(res[1]).__name__}: {str(res[1])[:120]}", replay, finding)
-            continue
+        if res[0] == "err":
+            why = M.documented_reason(name, res[1])
+            if why is None:
+                ctx.prop_fail(f"{name} on an accepted {cls} definition ({origin}) raises "
+                              f"{type(res[1]).__name__}: {str(res[1])[:120]} — documented for this operation: "
+                              f"{M.documented_classes(name) or 'no exception'}", replay,
+                              finding_for(cls, kw, name, res[1], finding, a.get("w")))
+                continue
+            ctx.stat(f"documented_by:{why}:{name}:{type(res[1]).__name__}")
         validate_result(ctx, name, res, replay)
         if tobj is not None:
             with M.options(False, False):
@@ -204,10 +242,15 @@ def use_definition(ctx: Ctx, cls: str, kw, rng, origin: str, twin=None, finding:
                     res = run_op(fn, x, y, a)
                 ctx.case((cls, name, tag, E.enc_def(cls, kx), E.enc_def(cls, ky)) if nontrivial(kw) else None)
                 ctx.stat(f"op:{name}:{'ok' if res[0] == 'ok' else type(res[1]).__name__}")
-                if res[0] == "err" and not M.is_documented(name, res[1]):
-                    ctx.prop_fail(f"{name} on accepted {cls} definitions ({origin}) raises "
-                                  f"{type(res[1]).__name__}: {str(res[1])[:120]}", replay, finding)
-                    continue
+                if res[0] == "err":
+                    same = set(kx["input_symbols"]) == set(ky["input_symbols"])
+                    why = M.documented_reason(name, res[1], same_alphabet=same)
+                    if why is None:
+                        ctx.prop_fail(f"{name} on accepted {cls} definitions ({origin}) raises "
+                                      f"{type(res[1]).__name__}: {str(res[1])[:120]} — documented for this "
+                                      f"operation: {M.documented_classes(name) or 'no exception'}", replay, finding)
+                        continue
+                    ctx.stat(f"documented_by:{why}:{name}:{type(res[1]).__name__}")
                 validate_result(ctx, name, res, replay)
                 if tobj is not None:
                     t2 = M.construct(cls, strip_junk(ky if tag == "lhs" else kx))
@@ -238,12 +281,12 @@ def compare_twin(ctx, name, res, tres, alphabet, replay):
     a, b = res[1], tres[1]
     if M.is_automaton(a) and hasattr(a, "accepts_input") and type(a).__name__ in ("DFA", "NFA"):
         try:
-            sa = M.lang_sig(a, alphabet)
+            same = M.same_language(a, b, alphabet)  # exact (product BFS), not a sample of short words
         except Exception as e:  # noqa: BLE001 - the returned automaton cannot even be run
             ctx.prop_fail(f"{name}: running the returned automaton raises {type(e).__name__}: {str(e)[:80]}",
                           replay, None)
             return
-        if sa != M.lang_sig(b, alphabet):
+        if not same:
             ctx.prop_fail(f"{name}: the result accepts a different language when rows keyed by non-states are present",
                           replay, None)
     elif isinstance(a, str) and name.endswith("to_regex"):
@@ -358,6 +401,54 @@ def corpus(ctx: Ctx, rng):
         impl = check_validate(ctx, "GNFA", k, "corpus:gnfa-shape", exp, rule)
         if impl == "ok":  # pre-fix tree: accepted — then it has to be usable
             use_definition(ctx, "GNFA", k, rng, "corpus:gnfa-shape")
+    # reserved names (fixed b159ae7, 07f4843, cb4efab): the three definitions whose behaviour
+    # motivated the fixes must now be REJECTED with the documented class
+    x1 = dict(states={0, None}, input_symbols={"a", "b"}, transitions={0: {"a": 0}, None: {}}, initial_state=0,
+              final_states={None}, allow_partial=True)  # accepted 'b' (missing transition) and 'x'
+    x1b = dict(states={None, 1}, input_symbols={"a"}, transitions={None: {"a": 1}, 1: {"a": None}}, initial_state=1,
+               final_states={1}, allow_partial=False)  # rejected 'aa' while d|d and d.minify() accepted it
+    ed = dict(states={0, 1}, input_symbols={"", "a"}, transitions={0: {"a": {1}}, 1: {"": {0}}}, initial_state=0,
+              final_states={1})  # an NFA over the alphabet NFA.edit_distance({"", "a"}, …) was built on
+    pda = dict(states={0, 1}, input_symbols={"a"}, stack_symbols={"Z", ""},
+               transitions={0: {"": {"Z": (0, ""), "": (1, "Z")}}}, initial_state=0, initial_stack_symbol="Z",
+               final_states={1}, acceptance_mode="final_state")  # the empty stack made a move: '' accepted
+    npda = dict(pda, transitions={0: {"": {"Z": {(0, "")}, "": {(1, "Z")}}}})
+    # F33 (fixed f47420f): a ROW keyed by None passed validate(); isfinite / len / successor / the NFA's
+    # lambda closures then raised networkx's ValueError "None cannot be a node"
+    f33 = dict(states={0, 1}, input_symbols={"a"}, transitions={0: {"a": 1}, 1: {"a": 1}, None: {"a": 0}},
+               initial_state=0, final_states={1}, allow_partial=False)
+    f33n = dict(states={0, 1}, input_symbols={"a"}, transitions={0: {"a": {1}}, None: {"": {0}, "a": {1}}},
+                initial_state=0, final_states={1})
+    for cls, k, exp, rule in (("DFA", x1, "InvalidStateError", "reserved_state_name_none"),
+                              ("DFA", x1b, "InvalidStateError", "reserved_state_name_none"),
+                              ("DFA", f33, "InvalidStateError", "reserved_state_name_none"),
+                              ("NFA", f33n, "InvalidStateError", "reserved_state_name_none"),
+                              ("NFA", ed, "InvalidSymbolError", "reserved_input_symbol_empty"),
+                              ("DPDA", pda, "InvalidSymbolError", "reserved_stack_symbol_empty"),
+                              ("NPDA", npda, "InvalidSymbolError", "reserved_stack_symbol_empty")):
+        impl = check_validate(ctx, cls, k, "corpus:reserved-names", exp, rule)
+        check_construct_options(ctx, cls, k, "corpus:reserved-names")
+        if impl == "ok":  # pre-fix tree: accepted — then it has to be usable
+            for _ in range(3):
+                use_definition(ctx, cls, k, rng, "corpus:reserved-names")
+    # … and the library's own constructor that was called with such an alphabet
+    ctx.case(("corpus:reserved-names", "NFA.edit_distance"))
+    from automata.fa.nfa import NFA
+    res = run_op(lambda: NFA.edit_distance({"", "a"}, "a", 1))
+    got = "ok" if res[0] == "ok" else type(res[1]).__name__
+    ctx.stat(f"corpus:edit_distance_empty_symbol:{got}")
+    if got != "InvalidSymbolError":
+        ctx.prop_fail(f"NFA.edit_distance over the alphabet {{'', 'a'}} gives {got}, documented: InvalidSymbolError "
+                      "(the empty string is not an input symbol)",
+                      dict(cls="NFA", kind="edit_distance_empty_symbol"), None)
+    # open finding (C17's domain restriction, C19's soundness clause): read_input_as_ntm hard-codes the
+    # head mark '^' and the separator '_'; an accepted MNTM whose tape alphabet contains one of them
+    # makes it raise MalformedExtendedTapeError (reported under KEY_AS_NTM_MARKS on every run)
+    marks = dict(states={"q"}, input_symbols={"a", "b"}, tape_symbols={"a", "b", "x", "y", "_"}, n_tapes=3,
+                 transitions={"q": {}}, initial_state="q", blank_symbol="_", final_states=set())
+    check_validate(ctx, "MNTM", marks, "corpus:as-ntm-marks", "ok")
+    for _ in range(2):
+        use_definition(ctx, "MNTM", marks, rng, "corpus:as-ntm-marks")
     # the documentation's own examples are accepted
     g_ok = dict(states={0, 1, 2}, input_symbols={"a"}, transitions={0: {1: "a", 2: None}, 1: {1: "a", 2: ""}},
                 initial_state=0, final_state=2)
@@ -365,10 +456,59 @@ def corpus(ctx: Ctx, rng):
     use_definition(ctx, "GNFA", g_ok, rng, "corpus:doc")
 
 
+# ------------------------------------------------------------------ calls on temporaries
+CACHED_QUERIES = ("isempty", "isfinite", "cardinality", "minimum_word_length", "maximum_word_length")
+
+
+@guarded
+def temporaries_probe(ctx: Ctx, rng):
+    """Review finding X2 (open, owned by C06 / C13): a `@cached_method` query called directly on
+    an object nothing else refers to — `DFA(...).isempty()`, `(~d).isfinite()`, `(a | b).cardinality()`
+    — raises `RuntimeError: Bound object has been garbage collected` under cached_method 0.1.0 /
+    CPython 3.12 (the bound-method wrapper keeps only a weak reference).  The rest of this check
+    keeps strong references; this family makes the call exactly in the failing shape and reports
+    the RuntimeError under KEY_TEMPORARY, any other undocumented exception as a new violation."""
+    from automata.fa.dfa import DFA
+    kw = G.rand_def(rng, "DFA")
+    kw2 = G.rand_def(rng, "DFA", alphabet=sorted(kw["input_symbols"]))
+    d, d2 = DFA(**G._dc(kw)), DFA(**G._dc(kw2))
+    shapes = [("DFA(...)", lambda: DFA(**G._dc(kw))), ("~d", lambda: ~d), ("d | e", lambda: d | d2),
+              ("d.copy()", lambda: d.copy()), ("d.minify()", lambda: d.minify())]
+    for q in CACHED_QUERIES:
+        for tag, mk in shapes:
+            ctx.case(("temporary", tag, q, E.enc_def("DFA", kw)) if nontrivial(kw) else None)
+            try:
+                getattr(mk(), q)()  # no name is ever bound to the operand
+                out = "ok"
+            except RecursionError:
+                raise
+            except Exception as e:  # noqa: BLE001
+                out = type(e).__name__
+                replay = dict(cls="DFA", kind="temporary", kwargs=repr(kw), rhs=repr(kw2), shape=tag, query=q)
+                if isinstance(e, RuntimeError) and "garbage collected" in str(e):
+                    ctx.prop_fail(f"{tag}.{q}() — a cached query called on a temporary DFA — raises RuntimeError: "
+                                  f"{str(e)[:90]}", replay, KEY_TEMPORARY)
+                elif not M.is_documented(f"DFA.{q}", e):
+                    ctx.prop_fail(f"{tag}.{q}() on a temporary DFA raises {type(e).__name__}: {str(e)[:100]}",
+                                  replay, None)
+            ctx.stat(f"temporary:{tag}.{q}:{out}")
+
+
 # ------------------------------------------------------------------ run
 def run(ctx: Ctx):
     rng = ctx.rng
+    # the table (3)/(4) are judged against, as derived from the code under test in this run
+    table = {}
+    for cls in G.CLASSES:
+        for name, _ in M.unary_ops(cls) + M.binary_ops(cls):
+            table[name] = M.documented_classes(name)
+    ctx.sample({"documented exception classes per operation (docstring Raises sections; unlisted operations: none)":
+                {k: v for k, v in sorted(table.items()) if v}})
+    ctx.stat("documented_table:operations", len(table))
+    ctx.stat("documented_table:operations_that_may_raise", sum(1 for v in table.values() if v))
     corpus(ctx, rng)
+    for _ in range(ctx.budget(6, 60)):
+        temporaries_probe(ctx, rng)
 
     # 1. bounded-exhaustive over (operator, position) on a few definitions per class
     n_seed_defs = ctx.budget(8, 40)
@@ -472,7 +612,8 @@ def replay(ctx: Ctx, path: str) -> int:
         if x[0] == "ok" and y[0] == "ok":
             with M.options(False, False):
                 res = run_op(fn, x[1], y[1], a)
-            if res[0] == "err" and not M.is_documented(rp["op"], res[1]):
+            same = set(lhs["input_symbols"]) == set(rhs["input_symbols"])
+            if res[0] == "err" and not M.is_documented(rp["op"], res[1], same_alphabet=same):
                 ctx.prop_fail(f"{rp['op']} raises {type(res[1]).__name__}: {res[1]}", rp, None)
             else:
                 validate_result(ctx, rp["op"], res, rp)
@@ -484,6 +625,25 @@ def replay(ctx: Ctx, path: str) -> int:
         kw = eval(rp["kwargs"], _env())
         for _ in range(10):
             options_check(ctx, cls, kw, rng, "replay")
+    elif kind == "temporary":
+        from automata.fa.dfa import DFA
+        kw, kw2 = eval(rp["kwargs"], _env()), eval(rp["rhs"], _env())
+        d, d2 = DFA(**G._dc(kw)), DFA(**G._dc(kw2))
+        mk = {"DFA(...)": lambda: DFA(**G._dc(kw)), "~d": lambda: ~d, "d | e": lambda: d | d2,
+              "d.copy()": lambda: d.copy(), "d.minify()": lambda: d.minify()}[rp["shape"]]
+        try:
+            getattr(mk(), rp["query"])()
+        except Exception as e:  # noqa: BLE001
+            if not M.is_documented(f"DFA.{rp['query']}", e):
+                ctx.prop_fail(f"{rp['shape']}.{rp['query']}() on a temporary DFA raises {type(e).__name__}: {e}",
+                              rp, None)
+    elif kind == "edit_distance_empty_symbol":
+        from automata.fa.nfa import NFA
+        res = run_op(lambda: NFA.edit_distance({"", "a"}, "a", 1))
+        got = "ok" if res[0] == "ok" else type(res[1]).__name__
+        if got != "InvalidSymbolError":
+            ctx.prop_fail(f"NFA.edit_distance over the alphabet {{'', 'a'}} gives {got}, documented: InvalidSymbolError",
+                          rp, None)
     if ctx.prop_fails:
         print(f"VIOLATION property=C19 replay={path}")
         print("  " + ctx.prop_fails[0]["what"])
